@@ -288,7 +288,9 @@ impl Hash for Value {
             Value::EdgeKey(key) => key.hash(state),
             Value::Int(i) => i.hash(state),
             Value::Float(f) => {
-                // Hash by bit pattern for consistency
+                // Hash by bit pattern, but `-0.0 == 0.0` must hash alike: equal values with
+                // different hashes make hash-based grouping merge them only by accident.
+                let f = if *f == 0.0 { 0.0f64 } else { *f };
                 f.to_bits().hash(state);
             }
             Value::String(s) => s.hash(state),
